@@ -246,6 +246,10 @@ def check(repo: Repo, R) -> None:
         pl = [st for st in au.stmts(fa.node) if isinstance(st, ast.Assign) and ast.unparse(st.targets[0]) == f"{val}.{sp['parent']}" and ast.unparse(st.value) == arg
               and {(id(t), p_) for t, p_ in shared.path_conditions(fa.node, st)} == {(id(t), p_) for t, p_ in shared.path_conditions(fa.node, stores[0])}]
         R.check(len(pl) == 1, rule, key_of(fa, f"{cls}-parent-link"), fa.site, f"{cls}._add sets `{val}.{sp['parent']} = {arg}` unconditionally: {len(pl) == 1}", why="the inserted object does not report the container as its parent (Orphanage then rejects or mis-accepts it)")
+        early_ = [r_ for r_ in shared.returns_of(fa.node) if pl and not any(shared.precedes(fa.node, p_, r_) for p_ in pl)]
+        R.check(not early_, rule, key_of(fa, f"{cls}-no-return-before-parent-link"), fa.at(early_[0]) if early_ else fa.site,
+                f"{cls}._add never returns before the parent link is set" if not early_ else f"{cls}._add returns at line {early_[0].lineno} without setting `{val}.{sp['parent']}`",
+                why="an object the container already lists, but which another container took over in between, is handed back as held while it reports the other (or no) parent: Orphanage refuses the design")
         both = all(any(ast.unparse(st.targets[0].value) == f"{arg}.namespace" for st in stores) for _ in (0,)) and any(ast.unparse(st.targets[0].value) == "type_ctr" or ast.unparse(st.targets[0].value).startswith(arg + ".") and not ast.unparse(st.targets[0].value).endswith("namespace") for st in stores)
         R.check(both, rule, key_of(fa, f"{cls}-both-views"), fa.site, f"{cls}._add stores into the per-kind container and into the namespace under the same key `{val}.name`: {both}", why="namespace and per-kind views diverge")
         frz = False
@@ -301,6 +305,15 @@ def check(repo: Repo, R) -> None:
     battrs = set(union(repo, F_BUNDLE, "BundleAttr"))
     R.check(battrs <= hb, rule, key_of(fb, "kinds"), fb.site, f"Bundle._add has a container for every BundleAttr kind: {sorted(hb)} ⊇ {sorted(battrs)}", why="an attribute kind is stored nowhere")
 
+    # ---- 6 the passes take objects out of a module through both books (namespace and per-kind view) or not at all
+    from . import c05 as _c05
+    if "c18" not in shared.ATTACHING:
+        shared.ATTACHING.append("c05")
+        try:
+            R.run(_c05.check, repo, shared.Retag(R, lambda r: "C18.6-passes-keep-namespace-and-views-paired" if r.startswith("C05.3") else None,
+                                                "after elaboration an instance bundle's name still answers in get() and attribute access while the `instbundles` view is empty: the namespace no longer matches the views or the export"))
+        finally:
+            shared.ATTACHING.pop()
     # ---- 7 freeze guards are live
     R.run(c02.dead_guards, repo, R, "C18.7-freeze-guards-live", [("_elaborated", "Module", F_MODULE), ("_elaborated", "Bundle", F_BUNDLE)])
     R.floor("C18.1-reused-name-evicted", 2)
